@@ -14,7 +14,7 @@ value V  {"t": "none" | "other"}
 The content of cell `i` of every column is the number `i`, so a surviving column lists the
 positions that were kept.
 
-request  {"variant": "current" | "legacy" | "beforeValues" (default current), "n": rows, "labels": [str…],
+request  {"variant": "current" | "legacy" | "beforeValues" | "beforeShared" (default current), "n": rows, "labels": [str…],
           "policy": "drop"|"raise"|"ignore"  (an NAAction member)  or  "na_text": any string,
           "output": "pandas"|"numpy"|"sparse"|"narwhals",
           "entry": "sugar"|"formula"|"modelspec"|"modelspecs"|"materializer",
@@ -160,6 +160,7 @@ def variantOf (j : Json) : Variant :=
   match jstr j "variant" with
   | "legacy" => legacy
   | "beforeValues" => beforeValues
+  | "beforeShared" => beforeShared
   | _ => current
 
 def handleHistory (j : Json) : Json :=
